@@ -136,11 +136,13 @@ def wrappers(repo, chk):
         frame = fn.params[0]
         cs = [c for c in calls(fn, attr=callee_attr)]
         rets = returns(fn)
-        ok = len(cs) == 1 and cs[0].args and ast.unparse(cs[0].args[0]) == frame and len(rets) == 1 and isinstance(rets[0].value, ast.Name)
-        if ok:
+        ok = len(cs) == 1 and cs[0].args and ast.unparse(cs[0].args[0]) == frame and len(rets) == 1
+        if ok and isinstance(rets[0].value, ast.Name):
             par = parents(fn.node)
             st = par.get(cs[0])
             ok = isinstance(st, ast.Assign) and isinstance(st.targets[0], ast.Name) and st.targets[0].id == rets[0].value.id
+        elif ok:
+            ok = rets[0].value is cs[0]
         chk.expect(ok, 'C11.1w', 'R11', fn.site(), f'{name}: return transformer.{callee_attr}({frame}, ...)', 'the wrapper returns what the constructor returns', f'{name} must hand its input frame to the constructor and return the constructor\'s result unchanged')
 
 
@@ -225,7 +227,10 @@ def one_value_per_row(repo, chk):
                     n_lists += 1
                     counts = _count_appends_paths(fn, lp, lst)
                     chk.expect(counts == {1}, 'C11.2', 'R13', fn.site(lp), f'{lst}: appends per row over all paths = {sorted(counts)}', 'exactly one value per row on every path', f'the per-row list `{lst}` receives {sorted(counts)} values per row depending on the path: the new column is not row-aligned / has the wrong length')
-                    rows_ok = ast.unparse(lp.iter) in ('enumerate(multivalue_sets)', 'multivalue_sets', 'out_template_feature', 'enumerate(out_template_feature)')
+                    per_row = {n.targets[0].id for n in own_nodes(fn.node) if isinstance(n, ast.Assign) and isinstance(n.targets[0], ast.Name) and isinstance(n.value, ast.ListComp) and not n.value.generators[0].ifs
+                               and ('split' in ast.unparse(n.value.elt) or 'zip(' in ast.unparse(n.value))}
+                    it_src = lp.iter.args[0] if isinstance(lp.iter, ast.Call) and isinstance(lp.iter.func, ast.Name) and lp.iter.func.id == 'enumerate' and lp.iter.args else lp.iter
+                    rows_ok = isinstance(it_src, ast.Name) and it_src.id in per_row
                     chk.expect(rows_ok, 'C11.2b', 'R13', fn.site(lp), ast.unparse(lp.iter), 'the row loop ranges over all rows of the source column(s)', f'the row loop must range over every row of the source column; it ranges over {ast.unparse(lp.iter)}')
                 elif isinstance(d.value, ast.ListComp):
                     n_lists += 1
@@ -291,7 +296,14 @@ def subfeature_rules(repo, chk):
     m = fn.module
     # pairs (a, b) row by row
     tmpl = [n for n in own_nodes(fn.node) if isinstance(n, ast.Assign) and isinstance(n.value, ast.ListComp) and 'zip' in ast.unparse(n.value)]
-    ok_t = len(tmpl) == 1 and ast.unparse(tmpl[0].value).replace(' ', '') in ('[(a,b)fora,binzip(feature_first_vec,feature_second_vec)]', '[(a,b)for(a,b)inzip(feature_first_vec,feature_second_vec)]')
+    ok_t = False
+    if len(tmpl) == 1 and isinstance(tmpl[0].value, ast.ListComp):
+        lc0 = tmpl[0].value
+        g0 = lc0.generators[0]
+        za = g0.iter.args if isinstance(g0.iter, ast.Call) and isinstance(g0.iter.func, ast.Name) and g0.iter.func.id == 'zip' else []
+        if len(za) == 2 and isinstance(g0.target, ast.Tuple) and len(g0.target.elts) == 2 and isinstance(lc0.elt, ast.Tuple) and [ast.unparse(e) for e in lc0.elt.elts] == [ast.unparse(e) for e in g0.target.elts] and not g0.ifs:
+            srcs = [term_of(fn, a, inline=True) for a in za]
+            ok_t = all("tolist" in show(t) for t in srcs) and srcs[0] != srcs[1]
     chk.expect(ok_t, 'C11.4a', 'R15', fn.site(tmpl[0]) if tmpl else fn.site(), ast.unparse(tmpl[0])[:120] if tmpl else '', 'one (first, second) pair per row, in row order', 'the row template must pair the two source columns row by row')
     T = tmpl[0].targets[0].id if tmpl else 'out_template_feature'
     # one-sided
@@ -311,17 +323,32 @@ def subfeature_rules(repo, chk):
     ok_two = False
     if len(two) == 1:
         t = term_of(fn, two[0].test, inline=False)
-        want = expected_term(m, 'value_tuple[0] == mask_type[0] and value_tuple[1] == mask_type[1]')
+        par0 = parents(fn.node)
+        lp0 = par0.get(two[0])
+        vt = lp0.target.id if isinstance(lp0, ast.For) and isinstance(lp0.target, ast.Name) else 'value_tuple'
+        lp1 = par0.get(lp0) if lp0 is not None else None
+        mk = lp1.target.id if isinstance(lp1, ast.For) and isinstance(lp1.target, ast.Name) else 'mask_type'
+        want = expected_term(m, f'{vt}[0] == {mk}[0] and {vt}[1] == {mk}[1]')
         a1 = [ast.unparse(c.args[0]) for s in two[0].body for c in ast.walk(s) if isinstance(c, ast.Call) and isinstance(c.func, ast.Attribute) and c.func.attr == 'append']
         a0 = [ast.unparse(c.args[0]) for s in two[0].orelse for c in ast.walk(s) if isinstance(c, ast.Call) and isinstance(c.func, ast.Attribute) and c.func.attr == 'append']
         par = parents(fn.node)
         lp = par.get(two[0])
-        ok_two = t == want and a1 in (['str(1)'], ["'1'"]) and a0 in (['str(0)'], ["'0'"]) and isinstance(lp, ast.For) and ast.unparse(lp.iter) == T and ast.unparse(lp.target) == 'value_tuple'
+        ok_two = t == want and a1 in (['str(1)'], ["'1'"]) and a0 in (['str(0)'], ["'0'"]) and isinstance(lp, ast.For) and ast.unparse(lp.iter) == T
     chk.expect(ok_two, 'C11.4c', 'R15', fn.site(two[0]) if two else fn.site(), ast.unparse(two[0].test).replace('\n', ' ') if two else '', "two-sided: '1' iff both components equal the mask pair, else '0'",
                "the two-sided sub-feature must be the indicator of (first == mask[0] and second == mask[1])")
     # masks: all value pairs
     masks = [n for n in own_nodes(fn.node) if isinstance(n, ast.Call) and isinstance(n.func, ast.Attribute) and n.func.attr == 'append' and isinstance(n.args[0], ast.Tuple) and len(n.args[0].elts) == 2 and 'unique' in ast.unparse(n.args[0])]
-    chk.expect(len(masks) == 1 and ast.unparse(masks[0].args[0]) == '(unique_seed_feature_value, unique_target_feature_value)', 'C11.4d', 'R15', fn.site(masks[0]) if masks else fn.site(), ast.unparse(masks[0]) if masks else '', 'one indicator per (first value, second value) pair', 'mask pairs must be (value of the first feature, value of the second feature)')
+    ok_masks = False
+    if len(masks) == 1:
+        parm = parents(fn.node)
+        l_in = parm.get(parm.get(masks[0]))
+        l_out = parm.get(l_in) if l_in is not None else None
+        if isinstance(l_in, ast.For) and isinstance(l_out, ast.For) and isinstance(l_in.target, ast.Name) and isinstance(l_out.target, ast.Name):
+            e0, e1 = [ast.unparse(e) for e in masks[0].args[0].elts]
+            first_src = term_of(fn, l_in.iter, inline=True)
+            second_src = term_of(fn, l_out.iter, inline=True)
+            ok_masks = e0 == l_in.target.id and e1 == l_out.target.id and 'unique' in show(first_src) and 'unique' in show(second_src) and first_src != second_src
+    chk.expect(ok_masks, 'C11.4d', 'R15', fn.site(masks[0]) if masks else fn.site(), ast.unparse(masks[0]) if masks else '', 'one indicator per (first value, second value) pair', 'mask pairs must be (value of the first feature, value of the second feature)')
 
 
 def target_control(repo, chk):
